@@ -240,8 +240,18 @@ class _Gen:
             var = r.choice(avail) if avail and (r.chance(0.85) or not o["for_target_local"]) else r.choice(LOCALS)
             if var in LOCALS and not o["for_target_local"]:
                 var = LOOPVARS[0]
-            if not o["clean"] and o["for_tuple"] and r.chance(0.3):
-                self.emit(ind, "for %s, %s in I(%d, 2):" % (var, r.choice(LOCALS), self.sid()))
+            if o["for_tuple"] and r.chance(0.3):
+                # structured targets (a known finding until repo commit 94af376, hence
+                # formerly kept out of the clean runs)
+                form = r.weighted([("pair", 6), ("attr", 1.5), ("item", 1.5), ("star", 1)])
+                if form == "pair":
+                    self.emit(ind, "for %s, %s in I(%d, 2):" % (var, r.choice(LOCALS), self.sid()))
+                elif form == "star":
+                    self.emit(ind, "for %s, *%s in I(%d, 2):" % (var, r.choice(LOCALS), self.sid()))
+                else:
+                    tgt = "O.a%d" % self.sid() if form == "attr" else "O[%d]" % self.sid()
+                    self.emit(ind, "for %s in I(%d):" % (tgt, self.sid()))
+                    var = None
             elif o["boolop"] and r.chance(0.08):
                 # and/or as the whole iterable expression
                 self.emit(ind, "for %s in I(%d) %s I(%d):" % (var, self.sid(), r.choice(["or", "and"]), self.sid()))
